@@ -289,6 +289,21 @@ def run_cli(res, data, opts, what, expect_ok=None, out_mode='file'):
         shutil.rmtree(d, ignore_errors=True)
 
 
+# unusual but legal (or cleanly illegal) programs: empty literals in every role, calls of names that resemble builtins,
+# flavoured spellings of undefined functions, degenerate declarations
+UNUSUAL = [
+    'empty fill(int[] a) { for (int i = 0; i < a.length; i += 1) { a[i] = i; } }\nint sum(const int[] a) { return a.length; }\n'
+    'empty @is_you() { int[] nothing = []; fill(nothing); writeln(sum(nothing)); fill([]); writeln(sum([])); writeln(nothing.length); }\n',
+    'empty @is_you(int n) { bool[] e = []; byte[] b = []; string[] s = []; if (n > 100) { e[0] = true; b[0] += 1; s[0] = "x"; } write(e.length + b.length + s.length); }\n',
+    'empty @is_you() { const int[] c = []; write(c.length); if (c) { write(1); } if ([]) { write(2); } write([].length); write(([] is int[]).length); }\n',
+    'empty takem(byte[] m) { write(m); }\nempty takec(const byte[] m) { write(m); }\nempty @is_you() { takem([]); takec([]); takec(""); write([] is byte[]); }\n',
+    'int[] g = [];\nempty @is_you() { write(g.length); for (int i = 0; i < g.length; i += 1) { g[i] = 1; } }\n',
+] + ['empty @is_you() { try { %s } undo { } }\n' % call for call in
+     ('print("x");', 'println("x");', '!print("x");', '!println(5);', '!writ(1);', '!write(1);', '!writeln();', '!is_defea();', '!truth_is_defeat();', '!all_is_win();')] + \
+    ['empty @is_you() { %s }\n' % call for call in
+     ('@print("x");', '@println(5);', '@write(1);', '@is_you();', '@all_is_win();', 'print(1, 2);', 'println();', 'is_you();', 'all_is_win(1);', 'all_is_broken("why");',
+      'sleep();', 'debug(1);', 'progress("x");', 'write();', 'writeln(1, 2);')]
+
 GOOD = b'empty @is_you() { writeln("ok"); int[] a = [1, 2]; write(a[1]); }\n'
 
 
@@ -344,6 +359,14 @@ def run_shard(spec):
         for gen in (faultgrid.index_programs(), faultgrid.division_programs(), faultgrid.order_programs(), faultgrid.vla_programs(), faultgrid.nonlocal_programs()):
             srcs += [A.render(item[1]) for item in gen]
         srcs += [src for i, (t, src, e) in enumerate(T.operator_cases()) if src and i % 9 == 0]
+        srcs += [src for t, src, ok in T.return_cases()]
+        srcs += [c09.array_truth_program()[0], c09.STRING_PROG, c09.literal_program(0), c09.literal_program(-1), c09.unary_program('const')]
+        from ..gen import idioms, exits
+        for gen, stride in ((idioms.shadow_programs, 9), (idioms.operand_programs, 7), (idioms.capture_programs, 23), (idioms.capture_scalar_programs, 3),
+                            (idioms.narrowing_programs, 5), (idioms.fresh_literal_programs, 1), (idioms.spec_programs, 5), (idioms.history_programs, 13),
+                            (idioms.table_programs, 4), (exits.loop_exit_programs, 11)):
+            srcs += [A.render(item[1]) for i, item in enumerate(gen()) if i % stride == 0]
+        srcs += UNUSUAL
         seen = set()
         for i, src in enumerate(srcs):
             if i % spec['parts'] != spec['part'] or src in seen:
